@@ -5,7 +5,7 @@ CONSTANTS
   Level1 = "full"
   Level2 = "off"
   Level3 = "off"
-  Shapes = {"scalar", "string", "cat", "dense", "densecat", "nested", "sparse", "sparsecat", "sparsecatk", "sparsenest", "sparsepart", "sparsezero", "nestedcat", "nestedmix", "sparsenestcat"}
+  Shapes = {"scalar", "string", "cat", "dense", "densecat", "nested", "sparse", "sparsecat", "sparsecatk", "sparsenest", "sparsepart", "sparsezero", "nestedcat", "nestedmix", "sparsenestcat", "sparsenull"}
   Flavours = {"sim", "igl", "iglmix", "logged"}
   Envs = {"one", "same", "diff"}
   Mixes = "none"
